@@ -187,6 +187,8 @@ func (v *verifyCtx) enterLoop(x *Exec, st *State, fr *Frame, b *ssa.BasicBlock, 
 		fr.env[phi] = nv
 		if phi.Comment != "" {
 			fr.names[phi.Comment] = TV{nv, phi.Type()}
+			// rangeindex1, rangeindex2, ...: the index of loop N (the bare name is the innermost loop entered last)
+			fr.names[fmt.Sprintf("%s%d", phi.Comment, n)] = TV{nv, phi.Type()}
 		}
 	}
 	st.Loops = append(st.Loops, &loopAct{hdr: b, mods: mods, mark: mark, n: n})
@@ -313,6 +315,25 @@ func (x *Exec) havocLike(st *State, v Value, name string) Value {
 		}
 		return r
 	case ArrayV:
+		// a larger array of scalars becomes one unknown SMT array (reads at symbolic indices stay small)
+		if len(vv.E) >= 32 {
+			if s0, ok := vv.E[0].(Scalar); ok && s0.T.S.Kind == 1 {
+				var et types.Type
+				switch s0.T.S.W {
+				case 8:
+					et = types.Typ[types.Uint8]
+				case 16:
+					et = types.Typ[types.Uint16]
+				case 32:
+					et = types.Typ[types.Uint32]
+				case 64:
+					et = types.Typ[types.Uint64]
+				}
+				if et != nil {
+					return ArrayT{T: x.freshVar("havoc_"+name, ArrS(BV(64), s0.T.S)), Len: int64(len(vv.E)), Elem: et}
+				}
+			}
+		}
 		r := ArrayV{E: make([]Value, len(vv.E))}
 		for i := range vv.E {
 			r.E[i] = x.havocLike(st, vv.E[i], fmt.Sprintf("%s_%d", name, i))
@@ -584,7 +605,12 @@ func (x *Exec) verifyCase(fn *ssa.Function, c *FnContract, caseExpr string, op i
 	byName := map[string]int{}
 	var merged []Oblig
 	for _, o := range x.Obligs[mark:] {
-		if i, ok := byName[o.Name]; ok && o.Kind != "cover" {
+		if i, ok := byName[o.Name]; ok && o.Kind == "cover" {
+			// vacuity guard: some path to this point is feasible
+			merged[i].PC = Or(merged[i].PC, o.PC)
+			continue
+		}
+		if i, ok := byName[o.Name]; ok {
 			m := &merged[i]
 			if !m.PC.IsTrue() {
 				m.Cond = Implies(m.PC, m.Cond)
@@ -766,6 +792,14 @@ func (x *Exec) applyContract(st *State, fn *ssa.Function, c *FnContract, args []
 	for i := 0; i < rs.Len(); i++ {
 		rets = append(rets, x.sym(normal, rs.At(i).Type(), name+"_ret"))
 	}
+	// definitional result clauses: `retN == p` with a pointer-typed result binds the result to p (a fresh symbolic
+	// pointer can never equal an existing one, so assuming the clause would make the path vacuous)
+	{
+		pe0 := cx.postEnv(x, normal, rets, nil)
+		for _, en := range c.Ensures {
+			x.bindPtrResults(pe0, fn, rets, en)
+		}
+	}
 	pe := cx.postEnv(x, normal, rets, nil)
 	// definitional alias clauses: `aliases(L, R)` in a postcondition binds the slice L of the fresh result to R
 	// (a fresh symbolic result can never satisfy an aliasing fact, so assuming it would be vacuous)
@@ -774,6 +808,9 @@ func (x *Exec) applyContract(st *State, fn *ssa.Function, c *FnContract, args []
 	}
 	for _, en := range c.Ensures {
 		f := x.bindLambdas(normal, pe.Formula(en), havoc)
+		if f.IsFalse() {
+			fail("UNDECIDED: postcondition %q of %s folds to false at call site %s: assuming it would make the caller's path vacuous", en, name, site)
+		}
 		normal.Assume = append(normal.Assume, Implies(normal.Branch(), f))
 		// top-level literals of an assumed postcondition prune later branches on this path
 		if normal.Facts == nil {
@@ -938,6 +975,57 @@ func mentions(t, v *Term) bool {
 }
 
 func pc0(st *State) *Term { return st.PC() }
+
+func (x *Exec) bindPtrResults(pe *CEnv, fn *ssa.Function, rets []Value, en string) {
+	ex, err := parser.ParseExpr(rewriteImplies(en))
+	if err != nil {
+		return
+	}
+	rs := fn.Signature.Results()
+	retIdx := func(e ast.Expr) int {
+		id, ok := e.(*ast.Ident)
+		if !ok {
+			return -1
+		}
+		for i := 0; i < rs.Len(); i++ {
+			if id.Name == fmt.Sprintf("ret%d", i+1) || (rs.At(i).Name() != "" && id.Name == rs.At(i).Name()) {
+				if _, isPtr := rs.At(i).Type().Underlying().(*types.Pointer); isPtr {
+					return i
+				}
+			}
+		}
+		return -1
+	}
+	var walk func(e ast.Expr)
+	walk = func(e ast.Expr) {
+		switch n := e.(type) {
+		case *ast.ParenExpr:
+			walk(n.X)
+		case *ast.BinaryExpr:
+			switch n.Op {
+			case token.LAND:
+				walk(n.X)
+				walk(n.Y)
+			case token.EQL:
+				for k := 0; k < 2; k++ {
+					l, r := n.X, n.Y
+					if k == 1 {
+						l, r = r, l
+					}
+					if i := retIdx(l); i >= 0 && retIdx(r) < 0 {
+						func() {
+							defer func() { recover() }()
+							if p, ok := pe.eval(r).V.(Ptr); ok && p.Obj != nil {
+								rets[i] = p
+							}
+						}()
+					}
+				}
+			}
+		}
+	}
+	walk(ex)
+}
 
 func (x *Exec) bindAliases(pe *CEnv, st *State, en string) {
 	ex, err := parser.ParseExpr(rewriteImplies(en))
